@@ -26,7 +26,7 @@ fn union_ids(b: &BlockView) -> Vec<u64> {
 }
 
 /// the property, computed from the main chain as the store lists it
-fn expected_view(node: &Node, w: (u64, u64)) -> (Vec<u64>, Vec<u64>) {
+pub fn expected_view(node: &Node, w: (u64, u64)) -> (Vec<u64>, Vec<u64>) {
     let snap = node.shared.snapshot();
     let tip = snap.tip_number();
     let c = tip + 1;
@@ -47,7 +47,27 @@ fn expected_view(node: &Node, w: (u64, u64)) -> (Vec<u64>, Vec<u64>) {
     (set.into_iter().collect(), gap.into_iter().collect())
 }
 
-fn observed_view(node: &Node) -> (Vec<u64>, Vec<u64>) {
+/// the same on the raw short ids (histories whose proposals are real transactions)
+pub fn views_raw(node: &Node, w: (u64, u64)) -> ((BTreeSet<Vec<u8>>, BTreeSet<Vec<u8>>), (BTreeSet<Vec<u8>>, BTreeSet<Vec<u8>>)) {
+    use ckb_types::prelude::Entity;
+    let snap = node.shared.snapshot();
+    let tip = snap.tip_number();
+    let c = tip + 1;
+    let (mut set, mut gap) = (BTreeSet::new(), BTreeSet::new());
+    for h in 1..=tip {
+        let hash = snap.get_block_hash(h).expect("main chain hash");
+        let b = snap.get_block(&hash).expect("main chain block");
+        let d = c - h;
+        for id in b.union_proposal_ids() {
+            if d >= w.0 && d <= w.1 { set.insert(id.as_slice().to_vec()); } else if d < w.0 { gap.insert(id.as_slice().to_vec()); }
+        }
+    }
+    let p = snap.proposals();
+    let got = (p.set().iter().map(|i| i.as_slice().to_vec()).collect(), p.gap().iter().map(|i| i.as_slice().to_vec()).collect());
+    ((set, gap), got)
+}
+
+pub fn observed_view(node: &Node) -> (Vec<u64>, Vec<u64>) {
     let snap = node.shared.snapshot();
     let p = snap.proposals();
     (ids_of(p.set()), ids_of(p.gap()))
@@ -280,8 +300,15 @@ pub fn run(seed: u64, thorough: bool, out_dir: &std::path::Path, scratch: &std::
                     table.insert(number, dd.iter().map(|i| short_id(*i)).collect());
                     ops.push(format!("TInsert {} {}", coq_nat(number), coq_ids(&dd)));
                     crate::node::note_history(&jops); jops.push(json!({"insert": [number, dd]}));
+                    let before: BTreeSet<u64> = ids_of(view.set()).into_iter().collect();
                     let (removed, nv) = table.finalize(&view, number);
                     view = nv;
+                    // the ids reported as dropped are exactly those that were committable and no longer are
+                    let after: BTreeSet<u64> = ids_of(view.set()).into_iter().collect();
+                    let want_removed: Vec<u64> = before.difference(&after).cloned().collect();
+                    if ids_of(&removed) != want_removed {
+                        out.viol.push(json!({"what": "finalize reports as dropped something else than the ids that left the committable set", "detail": {"stream": "table", "window": [window.0, window.1], "ops": jops, "finalize": number, "reported": ids_of(&removed), "left_the_set": want_removed}}));
+                    }
                     ops.push(format!("TFinalize {}", coq_nat(number)));
                     crate::node::note_history(&jops); jops.push(json!({"finalize": number}));
                     obs.push((ids_of(&removed), ids_of(view.set()), ids_of(view.gap())));
